@@ -350,6 +350,7 @@ struct Observing {
 
 impl Policy for Observing {
     fn process(&self, log: &mut LogFile) -> anyhow::Result<()> {
+        crate::engine::sched::yield_now();
         let seen = log.len_estimate();
         let true_len = std::fs::metadata(log.path()).ok().map(|m| m.len());
         let path = log.path().to_path_buf();
@@ -415,13 +416,13 @@ impl World {
     }
 
     pub fn build_appender(&self, sb: &Sandbox, consults: &Arc<Mutex<Vec<Consult>>>, armed: &Arc<AtomicBool>) -> Result<RollingFileAppender, String> {
+        self.build_appender_with(sb, consults, armed, Box::new(PatternEncoder::new("{m}")))
+    }
+
+    pub fn build_appender_with(&self, sb: &Sandbox, consults: &Arc<Mutex<Vec<Consult>>>, armed: &Arc<AtomicBool>, encoder: Box<dyn log4rs::encode::Encode>) -> Result<RollingFileAppender, String> {
         armed.store(false, Ordering::SeqCst);
         let policy = Observing { inner: CompoundPolicy::new(self.build_trigger(armed), self.build_roller(sb)), log: consults.clone() };
-        RollingFileAppender::builder()
-            .append(self.append)
-            .encoder(Box::new(PatternEncoder::new("{m}")))
-            .build(sb.path(self.active_rel()), Box::new(policy))
-            .map_err(|e| e.to_string())
+        RollingFileAppender::builder().append(self.append).encoder(encoder).build(sb.path(self.active_rel()), Box::new(policy)).map_err(|e| e.to_string())
     }
 
     pub fn real_init(&self, st: &MState) -> Result<Real, (String, String)> {
@@ -726,4 +727,189 @@ pub fn replay_world_case(case: &serde_json::Value) -> Result<(), String> {
     let stream = w.append || !w.restart;
     let spec = RollingSpec { world: w, stream };
     spec.conform(&path).map_err(|(s, d)| format!("{}: {}", s, d))
+}
+
+// --------------------------------------------------------------------------- E-SCHED harness
+
+use crate::engine::sched;
+use super::c04::{payload as tpayload, ChunkEncoder};
+
+#[derive(Clone, Debug)]
+pub struct RSched {
+    pub world: World,
+    pub threads: usize,
+    pub per_thread: usize,
+    pub size: usize,
+    pub chunks: usize,
+}
+
+impl RSched {
+    pub fn describe(&self) -> String {
+        format!("{} | {} threads x {} appends of {} bytes in {} chunks", self.world.describe(), self.threads, self.per_thread, self.size, self.chunks)
+    }
+}
+
+/// One controlled execution of concurrent appends to one real rolling appender.
+pub fn rsched_exec(h: &RSched, prefix: &[usize]) -> (sched::Execution, Result<String, (String, String)>) {
+    let w = &h.world;
+    let sb = Arc::new(Sandbox::new());
+    if let Some(n) = w.pre {
+        std::fs::write(sb.path(w.active_rel()), payload(PRE, n, false)).unwrap();
+    }
+    let consults = Arc::new(Mutex::new(vec![]));
+    let armed = Arc::new(AtomicBool::new(false));
+    let app = match w.build_appender_with(&sb, &consults, &armed, Box::new(ChunkEncoder { chunks: h.chunks })) {
+        Ok(a) => Arc::new(a),
+        Err(e) => return (sched::Execution { points: vec![], deadlock: false, aborted: None, panics: vec![] }, Err(("build-failed".into(), e))),
+    };
+    let notes: Arc<Mutex<Vec<String>>> = Arc::new(Mutex::new(vec![]));
+    let mut bodies: Vec<Box<dyn FnOnce() + Send>> = vec![];
+    for t in 0..h.threads {
+        let app = app.clone();
+        let notes = notes.clone();
+        let (per, size) = (h.per_thread, h.size);
+        bodies.push(Box::new(move || {
+            for r in 0..per {
+                let text = tpayload(&format!("t{}r{}", t, r), size);
+                if let Err(e) = app.append(&Record::builder().level(Level::Info).args(format_args!("{}", text)).build()) {
+                    notes.lock().unwrap().push(format!("append-error:t{}r{}:{}", t, r, e));
+                }
+            }
+        }));
+    }
+    let ex = sched::run_schedule(bodies, prefix, std::time::Duration::from_secs(20));
+    if let Some(p) = ex.panics.first() {
+        return (ex.clone(), Err((format!("panic:{}", panic_site(p)), p.clone())));
+    }
+    if ex.deadlock {
+        return (ex.clone(), Err(("deadlock".into(), ex.aborted.clone().unwrap_or_default())));
+    }
+    if ex.aborted.is_some() {
+        return (ex, Ok("aborted".into()));
+    }
+    if let Some(n) = notes.lock().unwrap().first() {
+        return (ex, Err(("concurrent:append-error".into(), n.clone())));
+    }
+    // judge: every file is a sequence of whole records; oldest->newest ++ active holds every record exactly once in per-thread order
+    let snap = files(&snapshot(&sb.dir));
+    let mut order_files: Vec<String> = vec![];
+    if let RollerK::Fixed { base, count, .. } = &w.roller {
+        for i in (*base..*base + *count).rev() {
+            order_files.push(w.archive_rel(i));
+        }
+    }
+    order_files.push(w.active_rel().to_string());
+    let pre_bytes = w.pre.map(|n| payload(PRE, n, false)).unwrap_or_default();
+    let mut next = vec![0usize; h.threads];
+    let mut layout = vec![];
+    let mut pre_seen = pre_bytes.is_empty() || !w.append;
+    let mut consults_n = 0;
+    for name in &order_files {
+        let raw = match snap.get(name) {
+            Some(r) => r,
+            None => continue,
+        };
+        let dec = match decode_by_ext(name, raw) {
+            Ok(d) => d,
+            Err(e) => return (ex, Err(("archive:corrupt-compressed-file".into(), format!("{}: {}", name, e)))),
+        };
+        let mut rest: &[u8] = &dec;
+        let mut here = vec![];
+        if !pre_seen && rest.starts_with(&pre_bytes) {
+            rest = &rest[pre_bytes.len()..];
+            pre_seen = true;
+            here.push("PRE".to_string());
+        }
+        'outer: while !rest.is_empty() {
+            for t in 0..h.threads {
+                if next[t] < h.per_thread {
+                    let text = tpayload(&format!("t{}r{}", t, next[t]), h.size);
+                    if rest.starts_with(text.as_bytes()) {
+                        rest = &rest[text.len()..];
+                        here.push(format!("t{}r{}", t, next[t]));
+                        next[t] += 1;
+                        continue 'outer;
+                    }
+                }
+            }
+            return (
+                ex,
+                Err((
+                    "concurrent:record-split-interleaved-duplicated-or-reordered".into(),
+                    format!("{} continues with {:?} after {:?}, which is not the next whole record of any thread (files so far {:?})", name, show_bytes(&rest[..rest.len().min(50)]), here, layout),
+                )),
+            );
+        }
+        consults_n += 1;
+        layout.push(format!("{}=[{}]", name, here.join(" ")));
+    }
+    let _ = consults_n;
+    for name in snap.keys() {
+        if !order_files.contains(name) {
+            return (ex, Err(("files:unexpected".into(), format!("unexpected file {}", name))));
+        }
+    }
+    if next.iter().any(|n| *n < h.per_thread) || !pre_seen {
+        return (ex, Err(("concurrent:record-lost".into(), format!("records missing; files: {:?}", layout))));
+    }
+    // trigger-specific expectations that hold for every schedule
+    match &w.trig {
+        Trig::OnStartup(min) => {
+            let rolled = consults.lock().unwrap().iter().filter(|c: &&Consult| c.rolled).count();
+            let want = if w.pre.map_or(0, |n| n as u64) >= *min && (w.append || *min == 0) { 1 } else { 0 };
+            if rolled != want {
+                return (ex, Err(("onstartup:rotation-count".into(), format!("{} rotations in this appender lifetime, expected {}; files {:?}", rolled, want, layout))));
+            }
+            let firsts: Vec<bool> = consults.lock().unwrap().iter().map(|c| c.rolled).collect();
+            if firsts.iter().skip(1).any(|r| *r) {
+                return (ex, Err(("onstartup:rolled-after-first-record".into(), format!("rotation decisions per record {:?}", firsts))));
+            }
+        }
+        Trig::Size(n) => {
+            for c in consults.lock().unwrap().iter() {
+                if c.true_len.is_some() && c.true_len != Some(c.seen) {
+                    return (ex, Err(("size-accounting:len_estimate-differs-from-file-size".into(), format!("seen {} true {:?}", c.seen, c.true_len))));
+                }
+                if c.rolled != (c.seen > *n) {
+                    return (ex, Err(("trigger:size-decision".into(), format!("len {} limit {} rolled {}", c.seen, n, c.rolled))));
+                }
+            }
+        }
+        _ => {}
+    }
+    (ex, Ok(layout.join(" | ")))
+}
+
+pub fn run_scheds(ctx: &Ctx, rep: &mut Report, hs: &[(RSched, usize)]) {
+    let mut notes = vec![];
+    for (h, bound) in hs {
+        let (stats, outcomes, viols) = sched::explore(*bound, |p| rsched_exec(h, p), &|| ctx.over_cap());
+        rep.add("schedules_executed", stats.schedules);
+        rep.add("distinct_schedule_outcomes", outcomes.len() as u64);
+        if !stats.complete {
+            rep.set("exhaustive", false);
+        }
+        notes.push(format!("{}: schedules={} preemption bound {} (by preemptions {:?}) max points {} distinct outcomes {}", h.describe(), stats.schedules, bound, stats.by_preemptions, stats.max_points, outcomes.len()));
+        rep.sample(serde_json::json!({"harness": h.describe(), "outcomes": outcomes.keys().take(3).collect::<Vec<_>>()}));
+        for (sig, detail, choices) in viols {
+            if sig == "MACHINERY" {
+                eprintln!("MACHINERY FAILURE: {}", detail);
+                std::process::exit(2);
+            }
+            rep.violation(
+                sig,
+                format!("[{}] schedule {:?}: {}", h.describe(), choices, detail),
+                serde_json::json!({"kind": "schedule", "world": world_json(&h.world), "threads": h.threads, "per_thread": h.per_thread, "size": h.size, "chunks": h.chunks, "schedule": choices}),
+            );
+        }
+    }
+    rep.set("schedule_explorations", serde_json::json!(notes));
+}
+
+pub fn replay_sched_case(case: &serde_json::Value) -> Result<(), String> {
+    let w = world_from_json(&case["world"]).ok_or("bad world")?;
+    let h = RSched { world: w, threads: case["threads"].as_u64().unwrap_or(2) as usize, per_thread: case["per_thread"].as_u64().unwrap_or(1) as usize, size: case["size"].as_u64().unwrap_or(24) as usize, chunks: case["chunks"].as_u64().unwrap_or(2) as usize };
+    let sch: Vec<usize> = case["schedule"].as_array().ok_or("bad schedule")?.iter().filter_map(|x| x.as_u64().map(|n| n as usize)).collect();
+    let (_, verdict) = rsched_exec(&h, &sch);
+    verdict.map(|_| ()).map_err(|(s, d)| format!("{}: {}", s, d))
 }
